@@ -4,6 +4,8 @@
 package c09
 
 import (
+	"log"
+	"io"
 	"bytes"
 	"fmt"
 	"net/http"
@@ -494,14 +496,89 @@ func fault(t *rapid.T, c *Case) {
 	}
 }
 
-func TestPropPolicy(t *testing.T) {
-	prop.Rapid(t, func(t *rapid.T) Case {
-		c := allGood(t)
-		for n := rapid.SampledFrom([]int{0, 0, 1, 1, 1, 1, 2}).Draw(t, "nfaults"); n > 0; n-- {
-			fault(t, &c)
+// ---- the shared-cache storability decision on its own (Exchange.IsCacheable) -----------------
+//
+// The same reference as in the policy check, applied to the exported predicate directly on
+// unsigned 1b3 exchanges: no signing, so it is cheap enough for very many cases - and for
+// concurrent evaluation with thousands of calls per goroutine, where a narrow window in shared
+// state (a memo of the last parsed header value, a lazily built table) has a chance to show.
+
+type CCCase struct {
+	Status       int      `json:"status"`
+	CacheControl []string `json:"cache_control"`
+	ExpiresHdr   string   `json:"expires_hdr"`
+	Reps         int      `json:"reps"`
+}
+
+var ccDiscard = log.New(io.Discard, "", 0)
+
+var ccProp = vh.Define("C09", "cacheable", func(c CCCase, r *vh.R) {
+	full := Case{Version: "1b3", Status: c.Status, CacheControl: c.CacheControl, ExpiresHdr: c.ExpiresHdr}
+	if ccAmbiguous(&full) {
+		r.Class("cache-control-reading-ambiguous")
+		r.Skip = true
+		return
+	}
+	var kvs []gen.HeaderKV
+	if len(c.CacheControl) > 0 {
+		kvs = append(kvs, gen.HeaderKV{Name: "Cache-Control", Values: c.CacheControl})
+	}
+	if c.ExpiresHdr != "" {
+		kvs = append(kvs, gen.HeaderKV{Name: "Expires", Values: []string{c.ExpiresHdr}})
+	}
+	kvs = append(kvs, gen.HeaderKV{Name: "Content-Type", Values: []string{"text/html"}})
+	want := http.StatusText(c.Status) != "" && len(storableReasons(&full, ccNames(strings.Join(c.CacheControl, ","), false))) == 0
+	if want {
+		r.Class("storable")
+	} else {
+		r.Class("not-storable")
+	}
+	r.NT()
+	for i := 0; i < max(1, c.Reps); i++ {
+		e := signedexchange.NewExchange(sxgkit.Ver("1b3"), "https://a.example/", "GET", nil, c.Status, gen.BuildHeader(kvs), nil)
+		if got := e.IsCacheable(ccDiscard); got != want {
+			r.Failf("cacheable-verdict", "IsCacheable = %v on call %d, RFC 7234 section 3 says %v for status %d, Cache-Control %q, Expires %q", got, i, want, c.Status, c.CacheControl, c.ExpiresHdr)
+			return
 		}
-		return c
-	})
+	}
+})
+
+func genCC(t *rapid.T) CCCase {
+	c := CCCase{Reps: 1}
+	c.Status = rapid.SampledFrom([]int{200, 200, 203, 204, 206, 300, 301, 404, 405, 410, 414, 501, 201, 202, 302, 303, 304, 307, 308, 400, 401, 403, 500, 502, 503, 100, 418, 451, 299, 600, 999, 209, 0, 306}).Draw(t, "status")
+	var parts []string
+	for i := rapid.IntRange(0, 3).Draw(t, "n"); i > 0; i-- {
+		pool := append(append(append([]string{}, harmlessCC...), neutralCC...), quotedCC...)
+		if rapid.IntRange(0, 3).Draw(t, "harmful") == 0 {
+			pool = harmfulCC
+		}
+		parts = append(parts, rapid.SampledFrom(pool).Draw(t, "cc"))
+	}
+	c.CacheControl = splitValues(t, parts)
+	if rapid.IntRange(0, 2).Draw(t, "hasexpires") == 0 {
+		c.ExpiresHdr = "Thu, 01 Dec 2044 16:00:00 GMT"
+	}
+	return c
+}
+
+func TestPropCacheable(t *testing.T) { ccProp.Rapid(t, genCC) }
+
+// TestConcCacheable: 8 goroutines, 500 calls each per batch.
+func TestConcCacheable(t *testing.T) {
+	ccProp.Concurrent(t, func(t *rapid.T) CCCase { c := genCC(t); c.Reps = 500; return c }, 8, 1)
+}
+
+func TestPropPolicy(t *testing.T) { prop.Rapid(t, genPropPolicy) }
+
+// TestConcPolicy: batches of cases evaluated at the same time on separate goroutines (vh.Prop.Concurrent).
+func TestConcPolicy(t *testing.T) { prop.Concurrent(t, genPropPolicy, 8, 3) }
+
+func genPropPolicy(t *rapid.T) Case {
+	c := allGood(t)
+	for n := rapid.SampledFrom([]int{0, 0, 1, 1, 1, 1, 2}).Draw(t, "nfaults"); n > 0; n-- {
+		fault(t, &c)
+	}
+	return c
 }
 
 // TestGrid enumerates every single fault (and the boundary instants / lifetimes) per version.
